@@ -61,6 +61,7 @@ type Script struct {
 	Init     []int     `json:"init"` // per pipeline: version id (1-based) or 0 = undefined
 	Steps    []Step    `json:"steps"`
 	Seed     int64     `json:"seed"`
+	Slow     bool      `json:"slow"` // the data store takes (virtual) time to write: saves can be in flight
 }
 
 // ---- vocabulary ----
